@@ -56,3 +56,14 @@ for tgt, kind, prefix in (("java", "block", ""), ("typescript", "block", ""), ("
                 ensures=[("text-cannot-end-the-comment", post)],
                 twins=[("never-a-comment", f"not {post}")] if k > 0 or kind == "block" else [],
                 use_as_callee=False, max_paths=20000, replay="native.c20:replay_comment"))
+
+# whole files: bounded, Python target only (the other targets' compilers are not available)
+from pyvc.units import Native  # noqa: E402
+
+UNITS.append(Native(
+    "every file of the Python SDK generated for hostile texts parses", ["C20"], "native.c20sdk:python_sdk_parses",
+    kind="examples",
+    bound="one meta-model with 26 hostile values (quotes, triple quotes, backslashes, '*/', line breaks, U+2028, NUL, "
+          "braces, format directives) as enumeration literal values, string constants and invariant descriptions, and 11 "
+          "reStructuredText descriptions whose rendering is hostile for a docstring or comment; every generated *.py "
+          "file must parse with ast.parse.  Python target only", args={}, timeout_s=600))
